@@ -28,7 +28,8 @@ fn mods_menu() -> Vec<(&'static str, ModSpec)> {
     ]
 }
 
-const RATES: [Option<f64>; 8] = [None, Some(0.01), Some(0.5), Some(0.75), Some(1.0), Some(1.5), Some(2.0), Some(100.0)];
+// (index 4 must stay rate 1; the last three are not multiples of 0.01)
+const RATES: [Option<f64>; 11] = [None, Some(0.01), Some(0.5), Some(0.75), Some(1.0), Some(1.5), Some(2.0), Some(100.0), Some(1.234), Some(0.875), Some(33.333)];
 
 fn close(a: f64, b: f64) -> bool {
     a == b || (a - b).abs() <= 1e-9 * a.abs().max(b.abs()).max(1.0)
@@ -87,6 +88,27 @@ fn check_cfg(l: &mut Local<'_>, c: &Cfg, menu: &[(&'static str, ModSpec)]) {
         if hw != built.hit_windows {
             l.violation("hit_windows_vs_build", || ctxs(v, format!("hit_windows()={hw:?} but build().hit_windows={:?}", built.hit_windows)));
             return;
+        }
+        // 1b. the same configuration handed over as a Difficulty gives the same attributes (clock rate as requested)
+        {
+            let mode = gen::game_mode(c.mode);
+            let mut d = rosu_pp::Difficulty::new().mods(menu[c.mods].1.build(mode));
+            if let Some(r) = rate {
+                d = d.clock_rate(r);
+            }
+            let (ar, od, cs, hp) = match c.sweep {
+                0 => (v, 7.3, 4.2, 5.5),
+                1 => (8.2, v, 4.2, 5.5),
+                2 => (8.2, 7.3, v, 5.5),
+                _ => (8.2, 7.3, 4.2, v),
+            };
+            d = d.ar(ar, c.ar_wm).od(od, c.od_wm).cs(cs, if c.sweep == 2 { c.ar_wm } else { false }).hp(hp, if c.sweep == 3 { c.ar_wm } else { false });
+            let via = BeatmapAttributesBuilder::new().mode(mode, c.convert).difficulty(&d).build();
+            l.checked(1);
+            if via != built {
+                l.violation("via_difficulty", || ctxs(v, format!("builder configured directly: {built:?}\nbuilder configured through Difficulty: {via:?}")));
+                return;
+            }
         }
         let in_range = (0.0..=10.0).contains(&v);
         // 2. with_mods = true round trip on [0, 10]
@@ -198,7 +220,7 @@ fn check_cfg(l: &mut Local<'_>, c: &Cfg, menu: &[(&'static str, ModSpec)]) {
 
 fn main() {
     let ctx = Ctx::from_env("C17");
-    ctx.rule("universe 'builder': mode x convert flag x mods {NM,HR,EZ,DT,HT,HRDT,EZHT,lazer DA} x clock rate {unset,0.01,0.5,0.75,1,1.5,2,100} x (ar with_mods, od with_mods) x swept attribute {ar,od,cs,hp}, each sweeping a 0.5 grid over [-20,20]; oracle = hit_windows()==build().hit_windows everywhere; on [0,10]: with_mods=true round trip (1e-9), windows non-increasing in OD/AR, windows x clock rate constant (mania excluded: floor/ceil formula), HR >= NM >= EZ. universe 'calculators': grammar maps x settings: OsuDifficultyAttributes.{ar, od(), *_hit_window, hp}, taiko windows and catch AR equal the builder's output for the same (converted) map and Difficulty; non-trivial = every builder case / stars > 0");
+    ctx.rule("universe 'builder': mode x convert flag x mods {NM,HR,EZ,DT,HT,HRDT,EZHT,lazer DA} x clock rate {unset,0.01,0.5,0.75,1,1.5,2,100,1.234,0.875,33.333} x (ar with_mods, od with_mods) x swept attribute {ar,od,cs,hp}, each sweeping a 0.5 grid over [-20,20]; oracle = hit_windows()==build().hit_windows everywhere; on [0,10]: with_mods=true round trip (1e-9), windows non-increasing in OD/AR, windows x clock rate constant (mania excluded: floor/ceil formula), HR >= NM >= EZ. universe 'calculators': grammar maps x settings: OsuDifficultyAttributes.{ar, od(), *_hit_window, hp}, taiko windows and catch AR equal the builder's output for the same (converted) map and Difficulty; non-trivial = every builder case / stars > 0");
 
     let menu = mods_menu();
     let radices: [u64; 7] = [4, 2, menu.len() as u64, RATES.len() as u64, 2, 2, 4];
@@ -224,9 +246,9 @@ fn main() {
     opts.poss = vec![gen::PosK::Far];
     let mut setts: Vec<Setting> = Vec::new();
     for (_, m) in &menu {
-        for r in [None, Some(0.75), Some(1.3)] {
+        for r in [None, Some(0.75), Some(1.3), Some(1.234)] {
             for (ar, od) in [(None, None), (Some((9.3, true)), Some((8.5, false))), (Some((9.3, false)), Some((8.5, true))), (Some((-3.0, false)), Some((11.0, true)))] {
-                setts.push(Setting { mods: m.clone(), rate: r, ar, od, cs: None, hp: if ar.is_some() { Some((6.5, od.is_some_and(|o| o.1))) } else { None }, hr_offsets: None, lazer: None });
+                setts.push(Setting { mods: m.clone(), rate: r, ar, od, cs: None, hp: if ar.is_some() { Some((6.5, od.is_some_and(|o| o.1))) } else { None }, hr_offsets: None, lazer: None, passed: None });
             }
         }
     }
@@ -239,7 +261,7 @@ fn main() {
             }
             ctx.universe(&u.name, u.total, |idx, l| {
                 let (spec, map) = u.decode(idx);
-                u.sample(l, idx, &spec, "settings: 8 mods x 3 rates x 4 override patterns");
+                u.sample(l, idx, &spec, "settings: 8 mods x 4 rates x 4 override patterns");
                 let mode = gen::game_mode(u.cfg.dst);
                 for s in &setts {
                     let d: Difficulty = s.difficulty(mode);
